@@ -32,7 +32,8 @@ REQUIRED_REACH = ["xgcm.padding._pad_face_connections", "xgcm.grid.Grid._1d_grid
 SIMPLE_OPS = ["diff", "interp", "min", "max", "cumsum", "cumint", "derivative", "integrate", "average", "get_metric", "interp_like",
               "ufunc", "gu_call", "gu_override", "pad", "vec_diff", "vec_interp", "diff_multi", "mw_diff", "transform_lin", "transform_log", "transform_cons", "transform_anon",
               "lazy_diff", "bad_axis", "bad_to", "bad_boundary", "bad_fill", "diff_to_dict", "interp_to_none", "max_to_none_u",
-              "bad_set_metrics_list", "bad_set_metrics_new", "bad_set_metrics_occupied"]
+              "bad_set_metrics_list", "bad_set_metrics_new", "bad_set_metrics_occupied",
+              "get_metric_product_c", "get_metric_product_o", "integrate_product_o"]
 FACE_OPS = ["diff", "interp", "max", "vec_diff", "vec_interp", "vec_multi", "diff_2d_vector", "interp_2d_vector", "pad_scalar",
             "pad_vector", "lazy_vec", "bad_axis", "vec_no_other", "cumsum"]
 
@@ -93,11 +94,15 @@ def build_world(desc):
         W["ctor_fill"] = {"X": 2.0}
         W["ctor_periodic"] = {"X": False, "Y": True, "Z": False}
         W["ctor_shifts"] = {"X": {"center": "outer"}}
-        W["ctor_metrics"] = {("X",): ["d_xc", "d_xg", "d_xo"], ("Y",): ["d_yc", "d_yg"], ("Z",): ["d_zc", "d_zo"], ("X", "Y"): ["area"]}
+        W["ctor_metrics"] = {("X",): ["d_xc", "d_xg", "d_xo"], ("Y",): ["d_yc", "d_yg"], ("Z",): ["d_zc"], ("X", "Y"): ["area"]}
         W["ds"] = ds
         W["da"] = xr.DataArray(gen.quarter_data(desc["seed"], (2, M, N)), dims=["time", "yc", "xc"], name="tracer", attrs={"long_name": "t"},
                                coords={"xc": ds.xc, "time": ds.time})
         W["dz"] = xr.DataArray(gen.quarter_data(desc["seed"] + 1, (2, 5)), dims=["time", "zc"], name="tz")
+        # arrays on X and Z, for which no joint metric is registered: the metric is a product of one-axis metrics
+        W["xz_c"] = xr.DataArray(gen.quarter_data(desc["seed"] + 4, (5, N)), dims=["zc", "xc"], name="xz")
+        W["xz_o"] = xr.DataArray(gen.quarter_data(desc["seed"] + 5, (6, N)), dims=["zo", "xg"], name="xzo")
+        W["axes_xz"] = ["X", "Z"]
         W["u"] = xr.DataArray(gen.quarter_data(desc["seed"] + 2, (2, M, N)), dims=["time", "yc", "xg"], name="u")
         W["v"] = xr.DataArray(gen.quarter_data(desc["seed"] + 3, (2, M, N)), dims=["time", "yg", "xc"], name="v")
         W["VD"] = {"X": W["u"]}
@@ -191,6 +196,12 @@ def do(op, W, g, desc):
             return g.average(W["da"], W["axes_list"])
         if op == "get_metric":
             return g.get_metric(W["u"], W["axes_list"])
+        if op == "get_metric_product_c":
+            return g.get_metric(W["xz_c"], W["axes_xz"])
+        if op == "get_metric_product_o":
+            return g.get_metric(W["xz_o"], W["axes_xz"])
+        if op == "integrate_product_o":
+            return g.integrate(W["xz_o"], W["axes_xz"])
         if op == "interp_like":
             return g.interp_like(W["u"], W["da"], boundary=W["B"], fill_value=W["F"])
         if op == "ufunc":
